@@ -4,7 +4,7 @@
 // filters (object types and `type#relation` usersets).  The real query (commands/listusers, built the way
 // pkg/server/list_users.go builds it: ValidateListUsersRequest, typesystem in the context,
 // NewListUsersQuery over the datastore with the contextual tuples) runs several times per case with
-// breadth limit 1 and with the default breadth limit; the output is the set of distinct sorted result
+// the default breadth limit and with breadth limit 3; the output is the set of distinct sorted result
 // lists, so schedule-dependent answers are visible to the driver.
 package main
 
@@ -14,6 +14,7 @@ import (
 	"fmt"
 	"sort"
 	"strings"
+	"time"
 
 	openfgav1 "github.com/openfga/api/proto/openfga/v1"
 
@@ -214,6 +215,131 @@ func moreWildcards(r *hx.Rand, m *fga.Model) *fga.Model {
 	return m
 }
 
+// focusedWorld builds the shapes the status / wildcard bookkeeping of expandExclusion,
+// expandIntersection and expandUnion is about: base relations a..d assignable to users, wildcards and
+// group members; derived relations r0..r3 that are nested set expressions over them (and over each
+// other, acyclically); groups whose `member` is itself an exclusion, so that "no relationship" entries
+// travel through dispatches.
+func focusedWorld(r *hx.Rand) (*fga.Model, *typesystem.TypeSystem, []fga.Tuple) {
+	for {
+		if m, ts, tuples := focusedWorldOnce(r); m != nil {
+			return m, ts, tuples
+		}
+	}
+}
+
+func focusedWorldOnce(r *hx.Rand) (*fga.Model, *typesystem.TypeSystem, []fga.Tuple) {
+	u := fga.Restr{Typ: "user"}
+	uw := fga.Restr{Typ: "user", Wild: true}
+	gm := fga.Restr{Typ: "group", Rel: "member"}
+	base := []string{"a", "b", "c", "d"}
+	var leaf func(upto int) *fga.Rewrite
+	leaf = func(upto int) *fga.Rewrite {
+		if upto > 0 && r.Chance(1, 4) {
+			return cu(fmt.Sprintf("r%d", r.Intn(upto)))
+		}
+		return cu(hx.Pick(r, base))
+	}
+	var tree func(depth, upto int) *fga.Rewrite
+	tree = func(depth, upto int) *fga.Rewrite {
+		if depth >= 3 || (depth > 0 && r.Chance(2, 5)) {
+			return leaf(upto)
+		}
+		switch k := r.Intn(10); {
+		case k < 5:
+			return diff(tree(depth+1, upto), tree(depth+1, upto))
+		case k < 8:
+			if r.Chance(1, 4) {
+				return inter(tree(depth+1, upto), tree(depth+1, upto), tree(depth+1, upto))
+			}
+			return inter(tree(depth+1, upto), tree(depth+1, upto))
+		default:
+			return union(tree(depth+1, upto), tree(depth+1, upto))
+		}
+	}
+	grp := &fga.TypeDef{Name: "group", Rels: []*fga.RelDef{
+		{Name: "a", Rewrite: this(), Restrs: []fga.Restr{u, uw}},
+		{Name: "b", Rewrite: this(), Restrs: []fga.Restr{u, uw}},
+	}}
+	switch r.Intn(3) {
+	case 0:
+		grp.Rels = append(grp.Rels, &fga.RelDef{Name: "member", Rewrite: diff(cu("a"), cu("b"))})
+	case 1:
+		grp.Rels = append(grp.Rels, &fga.RelDef{Name: "member", Rewrite: cu("a")})
+	default:
+		grp.Rels = append(grp.Rels, &fga.RelDef{Name: "member", Rewrite: inter(cu("a"), cu("b"))})
+	}
+	doc := &fga.TypeDef{Name: "doc"}
+	for _, b := range base {
+		rs := []fga.Restr{u}
+		if r.Chance(3, 4) {
+			rs = append(rs, uw)
+		}
+		if r.Chance(1, 3) {
+			rs = append(rs, gm)
+		}
+		doc.Rels = append(doc.Rels, &fga.RelDef{Name: b, Rewrite: this(), Restrs: rs})
+	}
+	for i := 0; i < 4; i++ {
+		doc.Rels = append(doc.Rels, &fga.RelDef{Name: fmt.Sprintf("r%d", i), Rewrite: tree(0, i)})
+	}
+	m := &fga.Model{Types: []*fga.TypeDef{{Name: "user"}, grp, doc}}
+	ts, err := typesystem.NewAndValidate(context.Background(), m.Proto(fgarun.ModelID))
+	if err != nil {
+		return nil, nil, nil // e.g. "potential loop": draw again
+	}
+	var tuples []fga.Tuple
+	seen := map[string]bool{}
+	add := func(t fga.Tuple) {
+		if !seen[t.String()] {
+			seen[t.String()] = true
+			tuples = append(tuples, t)
+		}
+	}
+	objs := []string{"doc:1"}
+	if r.Chance(1, 3) {
+		objs = append(objs, "doc:2")
+	}
+	for _, o := range objs {
+		for _, rd := range doc.Rels[:4] {
+			for _, x := range rd.Restrs {
+				switch {
+				case x.Wild:
+					if r.Chance(2, 5) {
+						add(fga.Tuple{Obj: o, Rel: rd.Name, User: "user:*"})
+					}
+				case x.Rel != "":
+					if r.Chance(1, 2) {
+						add(fga.Tuple{Obj: o, Rel: rd.Name, User: "group:" + hx.Pick(r, []string{"1", "2"}) + "#member"})
+					}
+				default:
+					for _, id := range userIDs {
+						if r.Chance(2, 5) {
+							add(fga.Tuple{Obj: o, Rel: rd.Name, User: "user:" + id})
+						}
+					}
+				}
+			}
+		}
+	}
+	for _, g := range []string{"group:1", "group:2"} {
+		for _, rn := range []string{"a", "b"} {
+			for _, id := range userIDs {
+				if r.Chance(1, 3) {
+					add(fga.Tuple{Obj: g, Rel: rn, User: "user:" + id})
+				}
+			}
+			if r.Chance(1, 6) {
+				add(fga.Tuple{Obj: g, Rel: rn, User: "user:*"})
+			}
+		}
+	}
+	hx.Shuffle(r, tuples)
+	return m, ts, tuples
+}
+
+var userIDs = []string{"x", "y", "z"}
+
 func gen(r *hx.Rand, n int, tier string, emit func(string), st *hx.Stats) {
 	for _, c := range crafted() {
 		emit(c)
@@ -222,6 +348,30 @@ func gen(r *hx.Rand, n int, tier string, emit func(string), st *hx.Stats) {
 	perWorld := 10
 	for i := 0; i < n; {
 		c := r.Fork()
+		if c.Chance(1, 2) {
+			m, ts, tuples := focusedWorld(c)
+			st.Inc("worlds-focused")
+			rels := []string{"r0", "r1", "r2", "r3"}
+			for _, rel := range rels {
+				if i >= n {
+					break
+				}
+				obj := "doc:1"
+				emit(caseLine(m, ts, 25, tuples, nil, obj, rel, "user", nil))
+				i++
+				st.Inc("cases")
+				st.Inc("cases-focused")
+				st.Inc("filter-user")
+			}
+			if i < n && c.Chance(1, 2) {
+				emit(caseLine(m, ts, 25, tuples, nil, "doc:1", hx.Pick(c, rels), "group#member", nil))
+				i++
+				st.Inc("cases")
+				st.Inc("cases-focused")
+				st.Inc("filter-userset")
+			}
+			continue
+		}
 		opts := fga.DefaultOpts()
 		opts.Conditions = c.Chance(1, 3)
 		m, ts := fga.GenModel(c, opts)
@@ -334,6 +484,13 @@ func canonErr(err error) string {
 	return "E other " + strings.ReplaceAll(strings.ReplaceAll(err.Error(), "\n", " "), "\t", " ")
 }
 
+// deadline of one ListUsers call.  NOTE: with a breadth limit smaller than the number of operands of a
+// union / intersection the real code blocks until the deadline (the operands' channels have capacity 1 and
+// their consumers are only started after every operand was submitted to the pool) and then returns a
+// partial result without error; the harness therefore never uses a breadth limit below 3 (generated
+// unions / intersections have at most 3 operands).
+const deadline = 5 * time.Second
+
 func listUsersOnce(ts *typesystem.TypeSystem, tuples, ctxT []fga.Tuple, rq fga.Req, depth int, breadth uint32) string {
 	ds := fgarun.Store(tuples)
 	defer ds.Close()
@@ -357,10 +514,16 @@ func listUsersOnce(ts *typesystem.TypeSystem, tuples, ctxT []fga.Tuple, rq fga.R
 		listusers.WithResolveNodeLimit(uint32(depth)),
 		listusers.WithResolveNodeBreadthLimit(breadth),
 		listusers.WithListUsersMaxConcurrentReads(1),
+		listusers.WithListUsersDeadline(deadline),
 	)
+	start := time.Now()
 	resp, err := q.ListUsers(ctx, req)
 	if err != nil {
 		return canonErr(err)
+	}
+	if time.Since(start) >= deadline {
+		// the deadline cut the expansion: ListUsers returns the partial result without an error
+		return "E deadline"
 	}
 	us := make([]string, 0, len(resp.GetUsers()))
 	for _, u := range resp.GetUsers() {
@@ -389,7 +552,7 @@ func exec(line string, st *hx.Stats) string {
 	}
 	seen := map[string]bool{}
 	var outs []string
-	for _, b := range []uint32{1, 1, 10, 10} {
+	for _, b := range []uint32{10, 3, 10, 3} {
 		o := listUsersOnce(ts, tuples, ctxT, rq, depth, b)
 		if !seen[o] {
 			seen[o] = true
